@@ -1439,6 +1439,9 @@ pub fn run_c16() {
     let (offered, svc) = crate::ssim::c16_service_level();
     rep.set("service_level_records_offered", offered);
     found.extend(svc);
+    let (refreshed, svc2) = crate::ssim::c16_service_pending();
+    rep.set("service_level_pending_records_refreshed", refreshed);
+    found.extend(svc2);
     for v in found {
         rep.violation(v);
     }
